@@ -80,6 +80,11 @@ def run_history(dc, sc, res, cfg, steps, label):
             if op == 'ADV':
                 clock.advance(args[0])
                 continue
+            if op == 'FREEZE':
+                clock.frozen = args[0]
+                if not args[0]:
+                    clock.advance(gen.TICK)
+                continue
             got = drv.step(op, *args, **kw)
             res.count('evaluations')
             res.count('calls_judged')
@@ -140,10 +145,22 @@ def random_history(rng, cfg, n_ops, wide, aliases=True):
     names = [w[0] for w in weights]
     ws = [w[1] for w in weights]
     if wide:
-        # fill first so that bulk operations cross the 100-row page
+        # fill first so that bulk operations cross the 100-row page; every other wide history stores the
+        # batch on ONE clock instant with one ttl (coarse clocks do that), then lets it expire in bulk
+        shared = rng.random() < 0.5
+        if shared:
+            yield ('FREEZE', (True,), {})
+            batch_ttl = gen.pick(rng, [gen.ttl_exact(0.5), gen.ttl_exact(5.5)])
         for k in keys:
             if rng.random() < 0.9:
-                yield ('set', (k, gen.pick(rng, vals)), {'expire': ttl(), 'tag': tag()})
+                yield ('set', (k, gen.pick(rng, vals)), {'expire': batch_ttl if shared else ttl(), 'tag': tag()})
+        if shared:
+            yield ('FREEZE', (False,), {})
+            yield ('ADV', (gen.pick(rng, [0.1, 1.0, 7.0]),), {})
+            if rng.random() < 0.6:
+                yield ('ADV', (7.0,), {})
+                yield (gen.pick(rng, ['expire', 'cull']), (), {})
+                yield ('len', (), {})
     for _ in range(n_ops):
         op = rng.choices(names, ws)[0]
         if op == 'ADV':
